@@ -271,6 +271,16 @@ def run(ctx):
         cc = rng.choice(ccs)
         batch.append({"cls": "IBAN" if i % 4 else "BBAN", "cc": cc, "seed": rng.randrange(2 ** 32),
                       "use_registry": bool(i % 2), "pins": draw_pins(rng, cc, 0.25) if cc else {}})
+    # stratified part: for every country with listed banks, registry-mode draws with the bank code pinned to a listed bank's
+    # field value (a prefix of its registry code where the code spans several fields)
+    R = reginfo()
+    for cc in sorted(c for c in R["per_cc"] if c in o.table and "bank_code" in o.positions(c)):
+        a, e = o.positions(cc)["bank_code"]
+        codes = sorted({x["bank_code"][:e - a] for x in R["per_cc"][cc] if x.get("bank_code") and len(x["bank_code"]) >= e - a})
+        for code in rng.sample(codes, min(3, len(codes))):
+            cl = gen().classes(cc)[a:e]
+            if all(ch in gens_class(k) for ch, k in zip(code, cl)):
+                batch.append({"cls": "IBAN", "cc": cc, "seed": rng.randrange(2 ** 32), "use_registry": True, "pins": {"bank_code": code}})
     hs = ["0", "1", "2", "4242"] if ctx.quick else ["0", "1", "2", "3", "7", "42", "4242", "99999", "123456789", "4294967295",
                                                      "random", "random", "random", "random", "random", "random"]
     cross_process(ctx.rec, batch, hs)
